@@ -16,6 +16,9 @@ import (
 	"github.com/cloudwego/hertz/pkg/network"
 	"github.com/cloudwego/hertz/pkg/route"
 
+	"github.com/cloudwego/hertz/pkg/app/server"
+
+	"verif/harness/lib/loop"
 	"verif/harness/lib/mon"
 	"verif/harness/lib/rig"
 	"verif/harness/lib/sconn"
@@ -27,6 +30,7 @@ func main() {
 		Rule: "each case = one connection history of 0..6 requests (keep-alive, close, pipelined) with a seeded outcome per request {ok, handler panic caught by the recovery middleware, malformed header, body too large, peer closes mid-body, write error, hijack} and a seeded end of connection {peer EOF, idle time-out, reset}, on engines with IdleTimeout 0 (return-to-poller: the rig re-enters Serve while input remains) and > 0, trace levels base and detailed, under seeded segmentation; a recording tracer's Start/Finish calls and the stage events are judged by an online checker of the (Start Finish)* grammar and the stage order; " +
 			"distinct = hash of (idle mode, level, outcome sequence, end action, segmentation policy); non-trivial = at least 2 requests or a non-ok outcome",
 		Assumptions: []string{
+			"loopback family: real servers on the standard and netpoll transports, the client closes the connection after the responses; the tracer log is read once it has been stable for 30 ms",
 			"one request-less (Start, Finish) pair is tolerated only on a connection that sent nothing",
 			"with IdleTimeout == 0 Serve returns after each request; the rig plays the poller and calls Serve again while buffered or undelivered input remains",
 			"a rejected request (malformed, too large, truncated) is still bracketed by one pair; its Finish need not carry a request path",
@@ -38,13 +42,14 @@ func main() {
 			return 8
 		},
 		Floors: func(t string) map[string]int64 {
-			return map[string]int64{"connections": 3000, "pairs_checked": 5000, "keepalive_connection_ends_checked": 500}
+			return map[string]int64{"connections": 3000, "pairs_checked": 5000, "keepalive_connection_ends_checked": 500, "loopback_connections_netpoll": 200}
 		},
 		Work: work,
 	})
 }
 
 type ev struct {
+	remote  string
 	kind    string // S or F
 	path    string
 	stages  string
@@ -61,7 +66,7 @@ var names = []string{"HTTPStart", "ReadHeaderStart", "ReadHeaderFinish", "ReadBo
 
 func (r *rec) Start(ctx context.Context, c *app.RequestContext) context.Context {
 	r.mu.Lock()
-	r.log = append(r.log, ev{kind: "S"})
+	r.log = append(r.log, ev{kind: "S", remote: remoteOf(c)})
 	r.mu.Unlock()
 	return ctx
 }
@@ -95,8 +100,17 @@ func (r *rec) Finish(ctx context.Context, c *app.RequestContext) {
 		problem = "HTTPStart/HTTPFinish missing"
 	}
 	r.mu.Lock()
-	r.log = append(r.log, ev{kind: "F", path: string(c.Request.Header.RequestURI()), stages: sb.String(), problem: problem})
+	r.log = append(r.log, ev{kind: "F", remote: remoteOf(c), path: string(c.Request.Header.RequestURI()), stages: sb.String(), problem: problem})
 	r.mu.Unlock()
+}
+
+func remoteOf(c *app.RequestContext) string {
+	if cn := c.GetConn(); cn != nil {
+		if a := cn.RemoteAddr(); a != nil {
+			return a.String()
+		}
+	}
+	return ""
 }
 
 type ecfg struct {
@@ -127,7 +141,14 @@ func build(cf ecfg) *engine {
 	})
 	e := rig.NewEngine(opt, func(e *route.Engine) {
 		e.Use(recovery.Recovery())
-		e.NoRoute(func(c context.Context, ctx *app.RequestContext) {
+		e.NoRoute(handler)
+	})
+	return &engine{e, tr}
+}
+
+func handler(c context.Context, ctx *app.RequestContext) {
+	{
+		{
 			p := string(ctx.Path())
 			switch {
 			case strings.HasPrefix(p, "/panic"):
@@ -141,9 +162,33 @@ func build(cf ecfg) *engine {
 			}
 			ctx.SetStatusCode(200)
 			ctx.Response.SetBodyString("ok")
-		})
-	})
-	return &engine{e, tr}
+		}
+	}
+}
+
+type lbServer struct {
+	s  *loop.Server
+	tr *rec
+}
+
+var lbServers = map[bool]*lbServer{}
+
+func getLB(w *mon.W, np bool) *lbServer {
+	if x, ok := lbServers[np]; ok {
+		return x
+	}
+	tr := &rec{}
+	srv, err := loop.Start(np, func(h *server.Hertz) {
+		h.Use(recovery.Recovery())
+		h.NoRoute(handler)
+	}, server.WithTracer(tr), server.WithTraceLevel(stats.LevelDetailed), server.WithMaxRequestBodySize(1000))
+	if err != nil {
+		w.Note("loopback server did not start: " + err.Error())
+		lbServers[np] = nil
+		return nil
+	}
+	lbServers[np] = &lbServer{srv, tr}
+	return lbServers[np]
 }
 
 func work(w *mon.W) {
@@ -155,13 +200,34 @@ func work(w *mon.W) {
 		engines[cf] = build(cf)
 		return engines[cf]
 	}
-	w.Cases("conn", uint64(w.Pick(20000, 800000)), func(c *mon.Case) { oneConn(w, c, get) })
+	w.Cases("conn", uint64(w.Pick(20000, 800000)), func(c *mon.Case) { oneConn(w, c, get, false) })
+	// the same histories over real loopback TCP on the standard and netpoll transports:
+	// there the end of a keep-alive connection is the transport's own close handling
+	w.Cases("loopback", uint64(w.Pick(1500, 30000)), func(c *mon.Case) { oneConn(w, c, get, true) })
+	for _, x := range lbServers {
+		if x != nil {
+			x.s.Stop()
+		}
+	}
 }
 
-func oneConn(w *mon.W, c *mon.Case, get func(ecfg) *engine) {
+func oneConn(w *mon.W, c *mon.Case, get func(ecfg) *engine, loopback bool) {
 	r := c.R
 	cf := ecfg{idle0: r.Bool(), detailed: r.Bool()}
-	en := get(cf)
+	var en *engine
+	var lb *lbServer
+	np := false
+	if loopback {
+		np = r.Bool()
+		lb = getLB(w, np)
+		if lb == nil {
+			return
+		}
+		cf = ecfg{detailed: true}
+		en = &engine{tr: lb.tr}
+	} else {
+		en = get(cf)
+	}
 	n := r.Intn(7)
 	if r.Chance(3) {
 		n = 1 + r.Intn(3)
@@ -205,6 +271,9 @@ func oneConn(w *mon.W, c *mon.Case, get func(ecfg) *engine) {
 			stop = true
 			continue
 		case 5:
+			if loopback {
+				break // a write error cannot be scripted on a real socket
+			}
 			oc = "write-error"
 			path = fmt.Sprintf("/big/%d/%d", c.I, i)
 			writeErr = true
@@ -246,7 +315,7 @@ func oneConn(w *mon.W, c *mon.Case, get func(ecfg) *engine) {
 		sc.WriteErrAfter = sc.OutLen() // fails on the first write of the faulty response... adjusted below
 	}
 	c.Detail = func() interface{} {
-		return map[string]interface{}{"config": fmt.Sprintf("%+v", cf), "outcomes": outcomes, "end": endName, "policy": policy, "stream": string(stream)}
+		return map[string]interface{}{"config": fmt.Sprintf("%+v", cf), "loopback": loopback, "netpoll": np, "outcomes": outcomes, "end": endName, "policy": policy, "stream": string(stream)}
 	}
 	en.tr.mu.Lock()
 	en.tr.log = en.tr.log[:0]
@@ -255,7 +324,49 @@ func oneConn(w *mon.W, c *mon.Case, get func(ecfg) *engine) {
 		// let the responses of the preceding requests through: they are short (< 250 bytes each)
 		sc.WriteErrAfter = 250*(len(outcomes)-1) + 300
 	}
-	res := rig.Serve(en.e, sc, 4096, cf.idle0, 15*time.Second)
+	var res *rig.Result
+	if loopback {
+		// expected number of responses: one per request that is answered at all
+		expect := 0
+		for _, o := range outcomes {
+			if o != "peer-closes-mid-body" {
+				expect++
+			}
+		}
+		out, closed, _ := lb.s.Exchange(frags, 0, 1500*time.Millisecond, func(out []byte) bool {
+			return bytes.Count(out, []byte("HTTP/1.1 ")) >= expect
+		})
+		res = &rig.Result{Out: out, Closed: closed}
+		// the connection is closed by Exchange; wait until the server has noticed: the
+		// tracer log must be stable for 30 ms (bounded by 1 s)
+		// … and, if this connection's last event is an open Start, its Finish is awaited
+		// for up to 3 s (the server must notice the close; it may take a moment under load)
+		last, stable := -1, 0
+		for i := 0; i < 600 && stable < 6; i++ {
+			time.Sleep(5 * time.Millisecond)
+			en.tr.mu.Lock()
+			n := len(en.tr.log)
+			open := false
+			for _, x := range en.tr.log {
+				if x.remote == lb.s.LastLocalAddr {
+					open = x.kind == "S"
+				}
+			}
+			en.tr.mu.Unlock()
+			if n == last && !open {
+				stable++
+			} else {
+				last, stable = n, 0
+			}
+		}
+		endName = "client-close"
+		w.Count("loopback_connections", 1)
+		if np {
+			w.Count("loopback_connections_netpoll", 1)
+		}
+	} else {
+		res = rig.Serve(en.e, sc, 4096, cf.idle0, 15*time.Second)
+	}
 	w.Count("connections", 1)
 	if res.Hang {
 		c.Violate("hang", "Serve did not finish")
@@ -268,6 +379,17 @@ func oneConn(w *mon.W, c *mon.Case, get func(ecfg) *engine) {
 	en.tr.mu.Lock()
 	log := append([]ev(nil), en.tr.log...)
 	en.tr.mu.Unlock()
+	if loopback {
+		// the tracer is shared by all connections of the server (the readiness probe, the
+		// previous case's connection being torn down): keep this connection's events
+		var mine []ev
+		for _, x := range log {
+			if x.remote == lb.s.LastLocalAddr {
+				mine = append(mine, x)
+			}
+		}
+		log = mine
+	}
 	render := func() string {
 		var l []string
 		for _, x := range log {
